@@ -75,6 +75,12 @@ def _run_tests(paths, env, tmp):
     cmd = ["/venv/bin/python", "-m", "pytest", "-q", "-p", "no:cacheprovider", "-p", "verifmon.monitors.plugin", "-n", "4", "--timeout=900"] + paths
     p = subprocess.run(cmd, cwd=REPO, env=env, capture_output=True, text=True, timeout=1400)
     tail = (p.stdout or "").strip().splitlines()[-1:] or [""]
+    if " passed" not in tail[0] and " failed" not in tail[0]:
+        # the test session ended without its summary line (seen once on a loaded machine: the xdist workers were lost and only the
+        # controller reported): run it once more, in one process, before concluding anything about what the monitors saw
+        cmd = [c for c in cmd if c not in ("-n", "4")]
+        p = subprocess.run(cmd, cwd=REPO, env=env, capture_output=True, text=True, timeout=1400)
+        tail = ["retried: " + ((p.stdout or "").strip().splitlines()[-1:] or [""])[0]]
     return {"pytest": tail[0][:200]}
 
 
